@@ -114,7 +114,7 @@ class Exec:
         s.ext = {}; s.ext_prefix = []
         import models
         models.register(s)
-        s.deftypes = {}; s.fns_executed = {}; s.t0 = time.time(); s.samples = []; s.ext_calls = {}; s.known = []; s.redirects = []
+        s.deftypes = {}; s.fns_executed = {}; s.t0 = time.time(); s.samples = []; s.ext_calls = {}; s.known = []; s.redirects = []; s.probes = []
 
     # ---------- solver
     def _check(s, assumptions):
@@ -1040,6 +1040,16 @@ class Exec:
             nf = Frame(f, m, dst, normal, unwind)
             if len(avs) != len(f.params): raise Inconclusive('call arity mismatch for ' + name)
             for (t, n), a in zip(f.params, avs): nf.env[n] = a
+            # //@probe REGEX TARGET: the kernel-defined void TARGET(void) runs on entry of every matching function
+            # (frame stacked on top of the callee's frame, so the callee starts when the probe returns)
+            for rx, tgt in s.probes:
+                if rx.search(name) and tgt in s.fn_of and name != tgt:
+                    pf_, pm_ = s.fn_of[tgt]
+                    if pf_.params: raise Inconclusive('probe %s must take no arguments' % tgt)
+                    s.ext_calls['probe:' + tgt] = s.ext_calls.get('probe:' + tgt, 0) + 1
+                    st.frames.append(nf); s.fns_executed[name] = f.ninstr
+                    st.frames.append(Frame(pf_, pm_, None, None, None)); s.fns_executed[tgt] = pf_.ninstr
+                    return None
             if len(st.frames) > s.lim.depth:
                 mm = s.feasible(st)
                 if mm is None: raise PathEnd('infeasible')
